@@ -116,6 +116,13 @@ pub mod pegc {
     pub type XRepNoProgress = RSeq4<RPush<RStr<LA>>, ROpt<RPush<RStr<LA>>>, RRep<RDrop, RNoSkip, 0, 2, 2>, RSeq2<RStr<LB>, RPeekAll, RNoSkip, 0>, RNoSkip, 0>;
     pub type GRepNullable<'i> = Seq3<S0<RepMinMax<RepMin<A, WS, 0, 0>, WS, 0, 2, 3>>, S0<Option<Push<B>>>, S0<RepMinMax<DROP, WS, 0, 1, 2>>>;
     pub type XRepNullable = RSeq3<RRep<RRep<RStr<LA>, RNoSkip, 0, 0, { usize::MAX }>, RNoSkip, 0, 2, 3>, ROpt<RPush<RStr<LB>>>, RRep<RDrop, RNoSkip, 0, 1, 2>, RNoSkip, 0>;
+    /// a SKIP rule that uses the stack and can fail after changing it (the skip node is AtomicRepeat of it, as the generator emits
+    /// when only one of WHITESPACE / COMMENT is defined): skip = (PUSH(b) ~ "c")*;  PUSH(a) ~skip~ a ~skip~ PEEK_ALL
+    pub type WSP = AtomicRepeat<Seq2<Skipped<Push<B>, WS, 0>, Skipped<Str<LC>, WS, 0>>>;
+    pub type SP1<T> = Skipped<T, WSP, 1>;
+    pub type RWSP = RRep<RSeq2<RPush<RStr<LB>>, RStr<LC>, RNoSkip, 0>, RNoSkip, 0, 0, { usize::MAX }>;
+    pub type GSkipPush<'i> = Seq3<SP1<Push<A>>, SP1<A>, SP1<PEEK_ALL<'i>>>;
+    pub type XSkipPush = RSeq3<RPush<RStr<LA>>, RStr<LA>, RPeekAll, RWSP, 1>;
     /// nested repetition with optional and SOI/EOI: SOI ~ (a{1,2} ~ b?)* ~ EOI (skips between everything)
     pub type GNest = Seq3<S1<SOI>, S1<RepMin<Seq2<S1<RepMinMax<A, WS, 1, 1, 2>>, S1<Option<B>>>, WS, 1, 0>>, S1<EOI>>;
     pub type XNest = RSeq3<RSoi, RRep<RSeq2<RRep<RStr<LA>, RWS, 1, 1, 2>, ROpt<RStr<LB>>, RWS, 1>, RWS, 1, 0, { usize::MAX }>, REoi, RWS, 1>;
